@@ -1892,6 +1892,7 @@ class SpiLinkMonitor:
         self.cur = None
         self.prev_done = 1
         self.checks = 0
+        self.csn_high = 0        # consecutive cycles with the master's cs_n pad high (slave idle: spi_link_slave_idle)
         self.t = 0               # pads.cs_n resets to 0: the slave sees a one-cycle frame right after reset (ignored)
 
     def observe(self, letter, outs):
@@ -1929,12 +1930,13 @@ class SpiLinkMonitor:
                         msg = "slave frame ended before the master reported done"
                 self.cur = None
         elif (start and done == 0 and self.prev_done and cs and not csm and not lb and 1 <= ln <= self.dw and div >= 2
-              and self.t > 8 and s_done):
+              and self.t > 8 and s_done and self.csn_high >= 4 and csn):
             # `done` drops combinationally in the start cycle
             self.cur = {"held": (ln, word & ((1 << self.dw) - 1), cs, csm, lb, div), "len": ln, "div": div,
                         "word": word & ((1 << self.dw) - 1), "clean": True, "fresh": True, "tx": None, "starts": 0,
                         "master_done": False}
         self.prev_done = done if not (start and self.cur is not None and self.cur["fresh"]) else 0
+        self.csn_high = self.csn_high + 1 if csn else 0
         return msg
 
 
